@@ -78,7 +78,11 @@ fn reply_events(rng: &mut Rng, kind: &str, tid: u16, unit: u8, req: &Request<'_>
             let mut f = frame(kind, tid, unit, &good);
             if kind == "tcp" {
                 match rng.below(3) {
-                    0 => f[3] = 1 + rng.u8() % 255,
+                    0 => {
+                        let pid = rng.nonzero_be16();
+                        f[2] = pid[0];
+                        f[3] = pid[1];
+                    }
                     1 => {
                         f[4] = 0;
                         f[5] = 0;
@@ -309,7 +313,9 @@ pub fn gen_srv_histories(out: &mut Out, rng: &mut Rng, n: usize) {
                     // malformed but framed
                     let mut f = frame(kind, tid, unit, &[0x05, 0, 1, 0x12, 0x34]);
                     if kind == "tcp" && rng.bool() {
-                        f[3] = 7;
+                        let pid = rng.nonzero_be16();
+                        f[2] = pid[0];
+                        f[3] = pid[1];
                     }
                     data.extend(f);
                 }
